@@ -90,6 +90,15 @@ def observer(name, params, returns, reads="*", ensures=(), requires=(), props=()
     return c
 
 
+EXTERNALS = set()   # names of classes of external libraries that contracts talk about (fields declared with fields(...))
+
+
+def external_class(_cls, **flds):
+    """a class that is not part of the repository (e.g. stim.CircuitInstruction): only the declared fields are known"""
+    EXTERNALS.add(_cls)
+    FIELDS.setdefault(_cls, {}).update(flds)
+
+
 REFINEMENTS = []    # (implementation "Class.method", interface contract name, props)
 
 
